@@ -65,6 +65,43 @@ func ruleLockField(c *chk.Ctx, owner string, fields ...*types.Var) {
 				c.Pass("LOCK.field", f, name, fa.Pos(), "read after %s.Wait(): every writer goroutine has exited", lifetime)
 				return
 			}
+			// an accessor method of a helper type (`isEmpty`, `len`): judged at each of its call
+			// sites — the lock held there, or the call made after the lifetime Wait
+			var sitesOK func(g *ssa.Function, depth int) bool
+			sitesOK = func(g *ssa.Function, depth int) bool {
+				if depth > 2 || g.Parent() != nil || ir.Exported(g) || c.P.UsedAsValue(g) {
+					return false
+				}
+				sites := c.P.Callers(g)
+				if len(sites) == 0 {
+					return false
+				}
+				for _, s := range sites {
+					if _, isCall := s.Instr.(*ssa.Call); !isCall {
+						return false
+					}
+					if c.F.At(s.Instr).Has(facts.Held, lock) {
+						continue
+					}
+					waited := false
+					ir.Instrs(s.Caller, func(i2 ssa.Instruction) {
+						if call, ok := i2.(*ssa.Call); ok {
+							if id, ok := wgCall(call, "Wait"); ok && id == lifetime && ir.InstrDominates(call, s.Instr) {
+								waited = true
+							}
+						}
+					})
+					if waited || sitesOK(s.Caller, depth+1) {
+						continue
+					}
+					return false
+				}
+				return true
+			}
+			if sitesOK(f, 0) {
+				c.Pass("LOCK.field", f, name, fa.Pos(), "accessor of a helper type: at every call site %s is held or %s.Wait() has returned", lock, lifetime)
+				return
+			}
 			c.Fail("LOCK.field", f, name, fa.Pos(), "%s.%s is accessed without %s held%s", ownerType(c, owner).Obj().Name(), ir.FieldVar(fa).Name(), lock, describeEntry(c, f, lock))
 		})
 	}
@@ -181,8 +218,25 @@ func ruleUsedTable(c *chk.Ctx, d *dispatchModel) {
 			"the reservation is not governed by err == nil of the task: a rejected duplicate would overwrite (and later release) its predecessor's entry")
 		// duplicate detection: a lookup in the table whose hit edge stores an error into the task
 		var lookup *ssa.Lookup
+		// (the table may be read through an alias: a field of a per-batch helper value that is
+		// only ever given the server's table)
+		isUsedTable := func(v ssa.Value) bool {
+			if chk.LoadsField(v, used) {
+				return true
+			}
+			if _, isMap := v.Type().Underlying().(*types.Map); !isMap {
+				return false
+			}
+			srcs := c.P.SourcesStop(v, func(x ssa.Value) bool { return chk.LoadsField(x, used) })
+			for _, src := range srcs {
+				if !chk.LoadsField(src, used) {
+					return false
+				}
+			}
+			return len(srcs) > 0
+		}
 		c.P.ExtInstrs(d.checkAssign, func(ins ssa.Instruction) {
-			if lk, ok := ins.(*ssa.Lookup); ok && chk.LoadsField(lk.X, used) {
+			if lk, ok := ins.(*ssa.Lookup); ok && isUsedTable(lk.X) {
 				lookup = lk
 			}
 		})
@@ -280,6 +334,56 @@ func ruleReserveRelease(c *chk.Ctx, d *dispatchModel) {
 			}
 		}
 	})
+	// or, instead of marking the responses that were never executed, the builder lists the ids
+	// of those that were: an append of the response's id to a list that travels with the
+	// messages (a field of the builder's result), governed by task.X != nil
+	listField := -1
+	if X == nil {
+		c.P.ExtInstrs(d.responses, func(ins ssa.Instruction) {
+			call, ok := ins.(*ssa.Call)
+			if !ok {
+				return
+			}
+			b, isB := call.Call.Value.(*ssa.Builtin)
+			if !isB || b.Name() != "append" || len(call.Call.Args) != 2 {
+				return
+			}
+			sl, isSl := call.Type().Underlying().(*types.Slice)
+			if !isSl || sl.Elem().String() != "string" {
+				return
+			}
+			// the element is the id of a response
+			isID := false
+			els, _ := c.P.ElementValues(call.Call.Args[1])
+			for _, e := range els {
+				if cv, isCv := e.(*ssa.Convert); isCv && chk.LoadsField(cv.X, c.M.JID) {
+					isID = true
+				}
+			}
+			if !isID {
+				return
+			}
+			// kept in a field of the result
+			fld := -1
+			for _, ref := range *call.Referrers() {
+				if st, isSt := ref.(*ssa.Store); isSt && st.Val == ssa.Value(call) {
+					if fa, isFA := st.Addr.(*ssa.FieldAddr); isFA && types.Identical(ir.FieldOwnerType(fa), d.responses.Signature.Results().At(0).Type()) {
+						fld = fa.Field
+					}
+				}
+			}
+			if fld < 0 {
+				return
+			}
+			for _, cd := range ir.CondsAt(call.Block()) {
+				if x, eq, ok := ir.NilCompare(cd.V); ok && eq != cd.Truth {
+					if _, fv, ok := taskFieldLoad(c, x); ok {
+						X, markPos, listField = fv, call.Pos(), fld
+					}
+				}
+			}
+		})
+	}
 	if X == nil {
 		c.Undecided("PAIR.release", d.responses, "not-executed mark", d.responses.Pos(), "cannot extract the predicate under which a response is marked not executed")
 		return
@@ -346,8 +450,36 @@ func ruleReserveRelease(c *chk.Ctx, d *dispatchModel) {
 			}
 			kinds = append(kinds, "other")
 		}
+		if listField >= 0 {
+			return len(kinds) == 0 // every listed id is released
+		}
 		return len(kinds) == 1 && kinds[0] == "mark==nil"
 	})
+	if listField >= 0 && okGov {
+		// the id released is an element of that very list
+		fromList := false
+		if ci, isCI := rel.(ssa.CallInstruction); isCI {
+			for _, a := range ci.Common().Args {
+				u, isU := c.P.Canon(a).(*ssa.UnOp)
+				if !isU {
+					continue
+				}
+				ia, isIA := u.X.(*ssa.IndexAddr)
+				if !isIA {
+					continue
+				}
+				if lu, isLU := ir.NormCell(ia.X).(*ssa.UnOp); isLU {
+					if fa, isFA := lu.X.(*ssa.FieldAddr); isFA && fa.Field == listField && types.Identical(ir.FieldOwnerType(fa), d.responses.Signature.Results().At(0).Type()) {
+						fromList = true
+					}
+				}
+				if fl, isFl := ir.NormCell(ia.X).(*ssa.Field); isFl && fl.Field == listField && types.Identical(fl.X.Type(), d.responses.Signature.Results().At(0).Type()) {
+					fromList = true
+				}
+			}
+		}
+		okGov = fromList
+	}
 	c.Check(okGov, "PAIR.release", rel.Parent(), "release governed by the executed mark", rel.Pos(), "the release runs exactly for responses not marked as never executed (a rejected duplicate cannot cancel its predecessor)",
 		"the delivery-time release is not governed exactly by the executed mark")
 	// the release loop visits every response: no early exit
